@@ -206,6 +206,10 @@ def model_scalar(it, mdl):
 
 
 def work(task):
+    if task[0] == "recoder":
+        from engines.polyid.recoders import SIGNED, recoder_task
+        _, name, fn = task
+        return recoder_task(MIR, name, fn, SIGNED[name][fn], Z3_TIMEOUT_MS)
     return task_mul(*task)
 
 
@@ -282,7 +286,9 @@ def run_lines(rp, lines):
         elif len(t) == 1:
             out.append(("error", "unknown function"))
         else:
-            out.append(("ok", [int.from_bytes(bytes.fromhex(h), "little") for h in t[1:]]))
+            raw = bytes.fromhex(t[1])
+            out.append(("ok", [int.from_bytes(bytes.fromhex(h), "little") for h in t[1:]],
+                        [b - 256 if b > 127 else b for b in raw]))
     return out
 
 
@@ -427,8 +433,44 @@ def run(tier, only=None):
     if not tasks:
         th.join()
         return finish("C04", tier, [], t0, machinery_error="no task selected by --only %r" % (only,))
+    from engines.polyid.recoders import SIGNED, native_recoder_check, scalar_order
+    ntask_mul = len(tasks)
+    rec_meta = []
+    for c in names:
+        for fn, spec in SIGNED.get(CURVES[c].get("base", c) if CURVES[c].get("wrap") else c, {}).items():
+            if CURVES[c].get("wrap") or (fsel and fn not in fsel):
+                continue
+            rec_meta.append((c, fn, spec, len(tasks)))
+            tasks.append(("recoder", c, fn))
     res = pmap(work, tasks, nproc=NCPU, timeout=230 if tier == "quick" else 1700)
     obs = []
+    rec_obs = []
+    for c, fn, spec, ti in rec_meta:
+        ro = Obligation("%s.%s:contract" % (c, fn), "P", [],
+                        "all arguments" + (" below 2^%d" % spec.value_bits if spec.value_bits else
+                                           " (all scalars below the group order)"),
+                        "digits in [%d, %d], top digit in [%d, %d], sum d_i 2^(%d i) = argument; decided per loop "
+                        "iteration from an arbitrary state inside the invariant (carry in {0,1}, buffered bits, value "
+                        "bound)" % (spec.lo, spec.hi, spec.tlo, spec.thi, spec.w))
+        ro.hint = dict(curve=c, func=fn, recoder=True)
+        ro.candidate = False
+        stt, val = res[ti]
+        if stt != "ok":
+            ro.unknown("%s: %s" % (stt, str(val)[:300]))
+        else:
+            ro.functions = val.get("fns") or []
+            solver = "%s (unsat on %d bit-vector queries over %d iterations)" % (Z3_VERSION, val["queries"],
+                                                                                val["iterations"])
+            ro.witness_n = val.get("witness_n")
+            if val["status"] == "ok":
+                ro.ok(solver, val["secs"], val["queries"])
+            elif val["status"] == "fail":
+                ro.unknown("candidate: " + "; ".join(val["detail"]), solver, val["secs"], val["queries"])
+                ro.candidate = True
+            else:
+                ro.unknown("; ".join(val["detail"]) or val["status"], solver, val["secs"], val["queries"])
+        rec_obs.append((ro, c, fn, spec))
+    tasks = tasks[:ntask_mul]
     for t, (st, val) in zip(tasks, res):
         if st == "ok":
             obs.extend(val)
@@ -440,13 +482,40 @@ def run(tier, only=None):
             obs.append(o)
             if st == "err" and "NotAbstractable" not in str(val):
                 merr = "task %r: %s" % (t, str(val)[:600])
-    log("C04: %d routine obligations in %.1fs" % (len(obs), time.time() - t0))
+    log("C04: %d routine obligations, %d recoder obligations in %.1fs" % (len(obs), len(rec_obs), time.time() - t0))
     th.join()
     rng = random.Random(SEED or 20261003)
     gfacts = {"tables_checked": 0, "tables_failed": 0, "native_mul_checked": 0, "native_mul_failed": 0,
               "error": rp.error}
     pending = []
     if rp.exe:
+        for ro, c, fn, spec in rec_obs:
+            try:
+                n, mism, err = native_recoder_check(run_lines, rp, c, fn, spec, scalar_order(MIR, c),
+                                                    [getattr(ro, "witness_n", None)], rng)
+            except Exception as e:  # noqa
+                n, mism, err = 0, None, "native check error: %s" % e
+            gfacts["native_mul_checked"] += n
+            if mism is not None:
+                gfacts["native_mul_failed"] += 1
+                if ro.verdict == "discharged":
+                    merr = merr or "native disagreement on a discharged obligation %s: %r" % (ro.name, mism)
+                else:
+                    ro.fail(mism, ro.solver, ro.seconds, ro.queries)
+            elif ro.verdict != "discharged" and ro.candidate and not err:
+                ro.reason += " | native replay of %d arguments meets the contract" % n
+        # decaf448's generator is twice the Edwards generator (as a coset)
+        if "decaf448" in names:
+            try:
+                Bd, Be = base_point(rp, "decaf448"), base_point(rp, "ed448")
+                m448 = MODELS["ed448"]
+                ok = same_element("decaf448", m448, Bd, m448.c_add(Be, Be))
+                gfacts["decaf448_base_is_2B"] = bool(ok)
+                gfacts["native_mul_checked"] += 1
+                if not ok:
+                    gfacts["native_mul_failed"] += 1
+            except Exception as e:  # noqa
+                gfacts["decaf448_base_is_2B"] = "error: %s" % e
         for o in list(obs):
             h = o.hint
             name, fn = h["curve"], h["func"]
@@ -508,6 +577,7 @@ def run(tier, only=None):
         for o in obs:
             if o.verdict != "discharged":
                 o.reason += " | native replay not built: %s" % (rp.error or "")[:200]
+    obs.extend(ro for ro, _, _, _ in rec_obs)
     na = [o.name for o in obs if getattr(o, "not_abstractable", False)]
     trusted = [TRUSTED[c] for c in names if c in TRUSTED]
     return finish(
@@ -519,13 +589,13 @@ def run(tier, only=None):
                 "tables": "all entries enumerated natively"},
         stubs={"set_add/set_sub/set_double/set_xdouble/set_neg/set_condneg/add_affine*/from_* -> group law": "C03",
                "lookup* -> sign(k)*win[|k|-1], neutral for 0 (side condition |k| <= entries proved)": "C20",
-               "recode_* -> digits in documented range, sum d_i 2^(w i) = n": "C04(a) (other engine)",
+               "recode_* -> digits in documented range, sum d_i 2^(w i) = n": "decided here (:contract obligations)",
                "split_mu/split_theta -> k = k0 + k1*mu, |k_i| < 2^128, signs as masks": "C11",
                "PRECOMP_* -> (j+1)*2^s*B": "ground facts of this check"},
         assumptions=["MIR semantics of engines/polyid/interp.py + algo.py (integer locals concrete or z3 bit-vectors)",
                      "a group element's coordinates are opaque: any routine doing field arithmetic on them outside "
                      "the intercepted operations is reported as not abstractable"] + trusted,
-        outside=["recoders and splits themselves (contracts only)", "lookup scans (C20)",
+        outside=["scalar splits (contracts only, C11)", "lookup scans (C20)",
                  "not abstractable in algorithm mode: " + (", ".join(na) if na else "none in this run")],
         ground_facts={"checked": gfacts["tables_checked"] + gfacts["native_mul_checked"],
                       "failed": gfacts["tables_failed"] + gfacts["native_mul_failed"], **gfacts},
